@@ -91,6 +91,7 @@ func (fr *Frame) instr(n *unode, s *State, g *Term, ins ssa.Instruction, rets *[
 	case *ssa.ChangeInterface:
 		s.regs[ins] = val(ins.X)
 	case *ssa.Convert:
+		fr.unsafeCastCheck(s, g, ins)
 		s.regs[ins] = fr.convert(val(ins.X), ins.X.Type(), ins.Type(), s, g)
 	case *ssa.MultiConvert:
 		s.regs[ins] = fr.convert(val(ins.X), ins.X.Type(), ins.Type(), s, g)
@@ -266,6 +267,37 @@ func (fr *Frame) instr(n *unode, s *State, g *Term, ins ssa.Instruction, rets *[
 		panic(fmt.Sprintf("unsupported instruction %T: %s", ins, ins))
 	}
 	return true
+}
+
+var gcSizes = types.SizesFor("gc", "amd64")
+
+// unsafeCastCheck: (*T)(unsafe.Pointer(&s[i])) reads sizeof(T) bytes of s starting at i.
+func (fr *Frame) unsafeCastCheck(s *State, g *Term, ins *ssa.Convert) {
+	x := fr.x
+	c := x.c
+	pt, ok := ins.Type().Underlying().(*types.Pointer)
+	if !ok {
+		return
+	}
+	if b, ok := ins.X.Type().Underlying().(*types.Basic); !ok || b.Kind() != types.UnsafePointer {
+		return
+	}
+	if c1, ok := ins.X.(*ssa.Convert); ok {
+		if ia, ok := c1.X.(*ssa.IndexAddr); ok {
+			if st, ok := ia.X.Type().Underlying().(*types.Slice); ok {
+				esz := gcSizes.Sizeof(st.Elem())
+				size := gcSizes.Sizeof(pt.Elem())
+				idx := fr.toIndex(fr.value(s, ia.Index), ia.Index.Type())
+				sl := fr.value(s, ia.X)
+				need := uint64((size + esz - 1) / esz)
+				fr.oblige("bounds", "", ins.Pos(), g, c.And(c.BVCmp("bvule", idx, c.SlLen(sl)), c.BVCmp("bvule", c.BV(need, 64), c.BVBin("bvsub", c.SlLen(sl), idx))),
+					fmt.Sprintf("unsafe cast to *%s reads %d bytes inside the slice", pt.Elem(), size))
+				x.note("unsafe idiom (*T)(unsafe.Pointer(&s[i])): bounds checked against len(s); the values read through the cast pointer are unconstrained (layout = amd64)")
+				return
+			}
+		}
+	}
+	x.note("unsafe pointer cast to *" + pt.Elem().String() + " at " + x.P.posStr(ins.Pos()) + " is not bounds-checked")
 }
 
 // toIndex converts an integer of any type to a 64-bit index (sign- or zero-extended).
